@@ -46,6 +46,20 @@ Model Model::build(Plan const& p, History const& h)
     }
     m.logger_masks[i].push_back({0, eff});
   }
+  m.sink_override.assign(m.by_sink.size(), false);
+  for (size_t i = 0; i < m.by_sink.size(); ++i)
+  {
+    m.sink_override[i] = p.get("sink" + std::to_string(i) + "_override", 0) != 0;
+  }
+  for (int i = 0; i < nloggers; ++i)
+  {
+    m.logger_names[i].push_back({0, "lg" + std::to_string(i)});
+  }
+  for (size_t t = 0; t < h.status.size(); ++t)
+  {
+    m.thread_sim_id[static_cast<int>(t)] = h.status[t].sim_id;
+  }
+  m.thread_sim_id[0] = 0;
   for (auto const& e : h.ev)
   {
     switch (e.type)
@@ -106,6 +120,7 @@ Model Model::build(Plan const& p, History const& h)
       if (e.c == 1)
       {
         m.logger_masks[static_cast<int>(e.a)].push_back({e.seq, e.b});
+        m.logger_names[static_cast<int>(e.a)].push_back({e.seq, e.s});
       }
       break;
     case EV_NOTIFIER:
@@ -136,8 +151,26 @@ int64_t Model::mask_of_logger_at(int slot, uint64_t seq) const
   return mask;
 }
 
+std::string Model::logger_name_at(int slot, uint64_t seq) const
+{
+  auto it = logger_names.find(slot);
+  std::string name;
+  if (it != logger_names.end())
+  {
+    for (auto const& pr : it->second)
+    {
+      if (pr.first <= seq)
+      {
+        name = pr.second;
+      }
+    }
+  }
+  return name;
+}
+
 // ---- registry ------------------------------------------------------------------------------------
 void register_c03(std::vector<Profile>&);
+void register_c05(std::vector<Profile>&);
 void register_c06(std::vector<Profile>&);
 void register_c08(std::vector<Profile>&);
 void register_c09(std::vector<Profile>&);
@@ -151,6 +184,7 @@ static std::vector<Profile>& registry()
   {
     std::vector<Profile> v;
     register_c03(v);
+    register_c05(v);
     register_c06(v);
     register_c08(v);
     register_c09(v);
